@@ -296,6 +296,48 @@ func deepKinds(x int) func() int {
 	}
 }
 
+type cell struct {
+	a int
+	b uint8
+}
+
+// compoundOps: every compound assignment operator applied by a closure to captured places
+// (slice element, array element, map element, struct field, pointer target).
+func compoundOps(x int) func() int {
+	sl := []int{x + 40, 7, 3}
+	var arr [3]uint16
+	arr[0], arr[1], arr[2] = uint16(x+9), 5, 2
+	m := map[string]int64{"k": int64(x + 100)}
+	st := &cell{x + 20, uint8(x + 3)}
+	v := x + 1000
+	p := &v
+	return func() int {
+		sl[0] += 5
+		sl[0] -= 2
+		sl[0] *= 3
+		sl[0] /= 2
+		sl[0] %= 1000
+		sl[0] &= 0x3ff
+		sl[0] |= 0x10
+		sl[0] ^= sl[1]
+		sl[0] ^= 5
+		sl[0] &^= sl[2]
+		arr[1] ^= arr[0]
+		arr[2] ^= 9
+		arr[0] |= arr[2]
+		arr[0] &^= 4
+		m["k"] ^= 0x55
+		m["k"] += int64(sl[1])
+		m["k"] &^= 2
+		st.a ^= 6
+		st.a ^= sl[2]
+		st.b ^= 0xf
+		*p ^= 0xff
+		*p %= 777
+		return sl[0] + int(arr[0])*3 + int(arr[1])*5 + int(arr[2])*7 + int(m["k"])*11 + st.a*13 + int(st.b)*17 + *p*19
+	}
+}
+
 func Main() {
 	gfuncs, gsetters, gptrs, gsptrs = nil, nil, nil, nil
 	gfptrs, gbptrs = nil, nil
@@ -307,7 +349,9 @@ func Main() {
 	}
 	steps := 6 + hook.Choose(14)
 	for s := 0; s < steps; s++ {
-		switch hook.Choose(22) {
+		switch hook.Choose(23) {
+		case 22:
+			gfuncs = append(gfuncs, compoundOps(hook.Choose(40)))
 		case 21:
 			gfuncs = append(gfuncs, deepKinds(hook.Choose(40)))
 		case 19:
